@@ -253,6 +253,21 @@ def reproducibility_case(ctx, rng, idx):
         ctx.violation_exc('sampling_raises', e, {'entry_point': name}, feats)
         return
     ctx.count('reproducibility_pairs')
+    # the same integer handed over as a numpy integer is the same seed
+    try:
+        np_seed = [np.int64, np.int32, np.uint32][idx % 3](seed)
+        r4 = call(np_seed)
+        ctx.count('numpy_integer_seeds')
+        if not _same(r1, r4):
+            ctx.violation('same_seed_same_result',
+                          'numpy_integer_seed_differs:' + name,
+                          {'seed': seed, 'type': type(np_seed).__name__,
+                           'int': _vals(r1)[:6], 'numpy': _vals(r4)[:6]},
+                          feats)
+    except Exception as e:      # noqa
+        ctx.violation_exc('sampling_raises', e,
+                          {'entry_point': name, 'seed': 'numpy integer'},
+                          feats)
     if not _same(r1, r2):
         ctx.violation('same_seed_same_result', 'irreproducible:' + name,
                       {'first': _vals(r1)[:8], 'second': _vals(r2)[:8],
@@ -293,16 +308,20 @@ def reproducibility_case(ctx, rng, idx):
 def independence_case(ctx, rng, idx):
     """streams of different outputs / time points / individuals"""
     kind = ['predictive_outputs', 'predictive_times', 'population_outputs',
-            'posterior_outputs', 'initial_parameters'][idx % 5]
+            'posterior_outputs', 'initial_parameters',
+            'prior_predictive_outputs'][idx % 6]
     n = 3000 if ctx.tier == 'quick' else 30000
     seed = int(rng.integers(0, 2 ** 31 - 2))
     feats = {'kind': kind}
-    ctx.case((kind, idx // 5 % 8), True, sample=dict(feats, seed=seed))
+    ctx.case((kind, idx // 6 % 8), True, sample=dict(feats, seed=seed))
     pairs = []
     try:
         if kind in ('predictive_outputs', 'predictive_times'):
             pm, x = _pm(rng, n_out=2 + idx % 2)
-            arr = pm.sample(x, TIMES, n_samples=n, seed=seed,
+            seed_arg = [seed, np.int64(seed), np.random.default_rng(seed)][
+                idx // 6 % 3]
+            feats['seed_type'] = type(seed_arg).__name__
+            arr = pm.sample(x, TIMES, n_samples=n, seed=seed_arg,
                             return_df=False)
             if kind == 'predictive_outputs':
                 pairs = [(arr[0, j], arr[1, j], 'outputs 1,2 at time %d' % j)
@@ -322,6 +341,19 @@ def independence_case(ctx, rng, idx):
             if np.array_equal(arr[:, :, 0], arr[:, :, 1]):
                 ctx.violation('streams_are_independent',
                               'identical_noise_for_patients', {}, feats)
+        elif kind == 'prior_predictive_outputs':
+            # a prior concentrated on one point: all variation is noise
+            pm, x = _pm(rng, n_out=2)
+            prior = pints.ComposedLogPrior(*[
+                pints.LogNormalLogPrior(float(np.log(v)), 1e-5) for v in x])
+            ppm = chi.PriorPredictiveModel(pm, prior)
+            df = ppm.sample(TIMES[:1], n_samples=min(n, 1500), seed=seed)
+            outs = pm.get_output_names()
+            a = df[df['Observable'] == outs[0]].sort_values('ID')[
+                'Value'].to_numpy(dtype=float)
+            b = df[df['Observable'] == outs[1]].sort_values('ID')[
+                'Value'].to_numpy(dtype=float)
+            pairs = [(a, b, 'outputs across prior predictive samples')]
         elif kind == 'posterior_outputs':
             pm, x = _pm(rng, n_out=2)
             ppm = _post_pred(rng, pm)
@@ -372,5 +404,5 @@ def independence_case(ctx, rng, idx):
 FAMILIES = [
     Family('reproducibility', reproducibility_case, quick=8 * 36,
            thorough=8 * 400),
-    Family('independence', independence_case, quick=60, thorough=600),
+    Family('independence', independence_case, quick=72, thorough=720),
 ]
